@@ -444,6 +444,29 @@ def spaces(tier, variant, seed):
     sp.append(Space("set_str_short_strings", [(b, c) for b in SB for c in CH], sh_cases, sh_one,
                     "every string of <=3 characters over %r in bases %s: accepted with the exact value or rejected with -1 per the manual" % (CH, SB)))
 
+    # every byte value 1..255 at the first, a middle and the last position of short numbers, every input base: bytes >= 0x80 index the
+    # digit table as unsigned chars only if every read of the string is cast, control characters and punctuation are never digits
+    EB = list(range(2, 63)) + [0]
+
+    def eb_cases(blk):
+        base = blk
+        for c in range(1, 256):
+            ch = chr(c)
+            for tpl in ("%s", "1%s", "%s1", "1%s1", "-%s", "-1%s0", "10%s"):
+                yield (base, tpl % ch)
+
+    def eb_one(case, R):
+        base, s = case
+        set_cfg()
+        ref = parse_ref(s, base)
+        if ref[0] == "skip":
+            return ("byte", base, "skip")
+        check_set(R, s, base, ref[1] if ref[0] == "ok" else None, "byte %#x in %r" % (max(ord(c) for c in s), s))
+        return ("byte", base, ref[0], len(s), ord(s[-1]) >> 4)
+
+    sp.append(Space("set_str_every_byte", EB, eb_cases, eb_one,
+                    "mpz_set_str / mpz_init_set_str: every byte value 1..255 placed first, in the middle and last in seven short templates, bases 0 and 2..62"))
+
     # mpq_set_str / mpq_get_str
     QN = [0, 1, -1, 7, -12, 255, 1 << 64, -((1 << 64) + 1), al.PAT(3)["dense"], 10 ** 30]
     QD = [1, 2, 3, 12, 255, 1 << 64, (1 << 64) + 1, 10 ** 20 + 1]
